@@ -3,6 +3,7 @@ import base64 as _b64
 
 import bvsym as sx
 from bvsym import core
+from .envpatch import EnvPatch
 from .common import FakeOs, FakeSock, Obligation, cover, new_ws, quiet_logging
 
 PROPERTY = "C10"
@@ -131,13 +132,13 @@ def q_hdr(hostlen, reslen, header_kind, group="all"):
                 custom_expected.append("X-%d: " % i + v)
         options["header"] = hd
     url = scheme + "://placeholder/"
-    real_os = HS.os._real if isinstance(HS.os, FakeOs) else HS.os
     draws = []
 
     def urandom(n):
         draws.append(n)
         return bytes(range(16))[:n]
-    HS.os = FakeOs(real_os, urandom)
+    ep = EnvPatch()
+    ep.urandom(urandom)
     try:
         headers, key = HS._get_handshake_headers(resource, url, host, port, options)
     except (sx.Control, sx.ConcreteFailure, sx.ReplayMismatch):
@@ -146,7 +147,7 @@ def q_hdr(hostlen, reslen, header_kind, group="all"):
         sx.require(False, "_get_handshake_headers raised %s" % type(e).__name__, header_kind=header_kind)
         return
     finally:
-        HS.os = real_os
+        ep.restore()
     # ---- expected request, assembled independently
     packed = ("[" + host + "]") if (":" in host) else host
     hostport = packed if port in (80, 443) else packed + ":" + str(port)
@@ -194,17 +195,15 @@ def q_key():
     def urandom(n):
         draws.append(n)
         return pool.pop(0)
-    real_os = HS.os._real if isinstance(HS.os, FakeOs) else HS.os
-    real_b64 = HS.base64encode
-    HS.os = FakeOs(real_os, urandom)
+    ep = EnvPatch()
+    ep.urandom(urandom)
     if sx.mode() != "concrete":
-        HS.base64encode = b64_model
+        ep.handshake_crypto(b64=lambda d: b64_model(d)[:-1])
     try:
         h1, k1 = HS._get_handshake_headers("/", "ws://h/", "h", 80, {})
         h2, k2 = HS._get_handshake_headers("/", "ws://h/", "h", 80, {})
     finally:
-        HS.os = real_os
-        HS.base64encode = real_b64
+        ep.restore()
     sx.require(draws == [16, 16], "each request draws 16 fresh random bytes exactly once")
     for h, k, r in ((h1, k1, r1), (h2, k2, r2)):
         line = [x for x in h if isinstance(x, (str, sx.SymStr)) and x.startswith("Sec-WebSocket-Key: ")]
@@ -316,20 +315,20 @@ def q_reuse(header_kind):
     HS.CookieJar.jar["." + host.lower()] = http.cookies.SimpleCookie("s=1")
     snap_header = copy.copy(header)
     snap_subs = list(subs)
-    real_os = HS.os._real if isinstance(HS.os, FakeOs) else HS.os
     pool = [bytes(range(16)), bytes(range(16, 32)), bytes(range(32, 48))]
     draws = []
 
     def urandom(n):
         draws.append(n)
         return pool.pop(0)
-    HS.os = FakeOs(real_os, urandom)
+    ep = EnvPatch()
+    ep.urandom(urandom)
     try:
         h1, k1 = HS._get_handshake_headers("/r", "ws://x/", host, 8080, options)
         h2, k2 = HS._get_handshake_headers("/r", "ws://x/", host, 8080, options)
         h3, k3 = HS._get_handshake_headers("/r", "ws://x/", host, 8080, options)
     finally:
-        HS.os = real_os
+        ep.restore()
         HS.CookieJar.jar.clear()
     sx.require(draws == [16, 16, 16], "every request draws its own 16 random bytes")
     sx.require(k1 != k2 and k2 != k3, "successive requests carry fresh keys")
